@@ -28,13 +28,14 @@ import (
 func init() {
 	register(&Prop{
 		ID: "C10", Level: "fault_enumeration",
-		Rule:        "enumerated fault plans: content length L (grid around 2048/32768/65536 and 100000-150000) x API (Set, SetReader, Create+Write+Close) x client (inline, gRPC) x fault: source reader fails at offset p in {0,1,2047,2048,2049,L/2,L-1} (error alone and (n>0,err)); gRPC: caller's context cancelled after p bytes were consumed, TCP connection cut by a harness-side proxy after p request bytes; no-space at the k-th write of a content file, full (0 bytes) or partial (j bytes really written, then ENOSPC), on 1-3 roots whose reported free space is supplied through the disk-usage hook in the patterns {faulty root has least free, faulty root has most free, all roots faulty, two faulty + one healthy with most free}; the same on a real 100 KiB tmpfs root (real ENOSPC, real partial writes) when mounting is permitted. Role grpccut repeats the cuts that hit a stream while it is being set up (first request byte, first few hundred bytes, or all connections closed from another goroutine within microseconds of the call) and the cancellations that race with the completion of the upload (context cancelled when the source is exhausted, or up to 2048 bytes earlier), hundreds of times per case: a stream the server has not seen is re-created and replayed by gRPC, so a client that completes it after a failed send stores a truncated value. A concurrent reader polls Get(key) during the faulty write. Oracle: error => an independent client reads the previous value (or ErrNotFound) during and after, class ErrNoFreeSpace where the statement says so; success => reads exactly the source bytes; with a healthy root reporting more free space than every faulty one the write must succeed. evaluations = plans executed; distinct_nontrivial = distinct (client, API, fault kind, offset class, root pattern, outcome) tuples",
+		Rule:        "enumerated fault plans: content length L (grid around 2048/32768/65536 and 100000-150000) x API (Set, SetReader, Create+Write+Close) x client (inline, gRPC) x fault: source reader fails at offset p in {0,1,2047,2048,2049,L/2,L-1} (error alone and (n>0,err)); gRPC: caller's context cancelled after p bytes were consumed, TCP connection cut by a harness-side proxy after p request bytes; no-space at the k-th write of a content file, full (0 bytes) or partial (j bytes really written, then ENOSPC), on 1-3 roots whose reported free space is supplied through the disk-usage hook in the patterns {faulty root has least free, faulty root has most free, all roots faulty, two faulty + one healthy with most free}; the same on a real 100 KiB tmpfs root (real ENOSPC, real partial writes) when mounting is permitted. Role grpccut repeats the cuts that hit a stream while it is being set up (first request byte, first few hundred bytes, or all connections closed from another goroutine within microseconds of the call) and the cancellations that race with the completion of the upload (context cancelled when the source is exhausted, or up to 2048 bytes earlier), hundreds of times per case: a stream the server has not seen is re-created and replayed by gRPC, so a client that completes it after a failed send stores a truncated value. Role opfault injects one failure of mkdir / file creation (first write into fresh storage, the write that replaces a full directory, an ordinary write): usual oracle, and the writes that follow without a fault must succeed. A concurrent reader polls Get(key) during the faulty write. Oracle: error => an independent client reads the previous value (or ErrNotFound) during and after, class ErrNoFreeSpace where the statement says so; success => reads exactly the source bytes; with a healthy root reporting more free space than every faulty one the write must succeed. evaluations = plans executed; distinct_nontrivial = distinct (client, API, fault kind, offset class, root pattern, outcome) tuples",
 		Assumptions: []string{"hook-injected ENOSPC models real ENOSPC (cross-checked on a real tmpfs root when mounting is permitted)"},
 		Roles: map[string]Role{
 			"reader":  {N: func(t string) int { return tierN(t, 12, 64) }, Case: c10Reader},
 			"nospace": {N: func(t string) int { return tierN(t, 12, 96) }, Case: c10NoSpace},
 			"grpc":    {N: func(t string) int { return tierN(t, 8, 48) }, Case: c10Grpc},
 			"grpccut": {N: func(t string) int { return tierN(t, 16, 96) }, Case: c10GrpcCut},
+			"opfault": {N: func(t string) int { return tierN(t, 8, 64) }, Case: c10OpFault},
 			"tmpfs":   {N: func(t string) int { return tierN(t, 2, 8) }, Case: c10Tmpfs, Procs: 2},
 		},
 	})
@@ -774,4 +775,102 @@ func (h *heldReader) Read(p []byte) (int, error) {
 	n, err := h.r.Read(p)
 	h.n += n
 	return n, err
+}
+
+// c10OpFault: a directory or a content file cannot be created (one injected failure of mkdir /
+// create at a chosen moment: the first write into fresh storage, the write that has to replace
+// a full directory, an ordinary write). The write may fail or go elsewhere, by the usual
+// oracle; and the failure must not outlive the fault: the writes that follow, without any
+// fault, must succeed and store completely.
+func c10OpFault(tier string, seed int64, idx int, scratch string) rt.CaseResult {
+	var c rt.CaseResult
+	rng := seqrun.Rng(seed, "C10of", idx)
+	nroots := 1 + idx%2
+	env, err := dbx.Open(dbx.Options{Mode: dbx.Inline, Dir: filepath.Join(scratch, "db"), Roots: nroots, MaxDirCount: 100, MaxDirExplicit: true})
+	if err != nil {
+		c.Violate("open-failed", err.Error(), nil)
+		return c
+	}
+	defer env.Close()
+	defer verif.SetOpFault(nil)
+	x := &c10Ctx{c: &c, env: env, verify: env.DB, seed: seed}
+	var arm atomic.Value // string: the operation to fail once
+	var fired atomic.Int64
+	verif.SetOpFault(func(op, path string) error {
+		if a, _ := arm.Load().(string); a == op {
+			arm.Store("")
+			fired.Add(1)
+			return fmt.Errorf("injected %s failure: %w", op, syscall.EIO)
+		}
+		return nil
+	})
+	n := 0
+	write := func(fault, moment string) bool {
+		n++
+		api := []string{"set", "setreader", "create"}[n%3]
+		key := fmt.Sprintf("k%d", n%4)
+		prev, gerr := env.DB.Get(ctxBg, key)
+		hadPrev := gerr == nil
+		src := seqrun.Content(fmt.Sprintf("of%d-%d", idx, n), []int{10, 3000, 70000}[rng.Intn(3)])
+		arm.Store(fault)
+		before := fired.Load()
+		werr := doWrite(env.DB, ctxBg, api, key, &faultReader{data: src, off: len(src)}, src)
+		arm.Store("")
+		didFire := fired.Load() != before
+		plan := map[string]any{"mode": "inline", "api": api, "fault": "op-" + fault, "moment": moment, "fault_fired": didFire, "roots": nroots, "write_number": n, "seed": seed}
+		if fault == "" {
+			plan["fault"] = "none-after-op-fault"
+		}
+		c.Evals++
+		if fault == "" && werr != nil {
+			c.Violate("write-fails-after-an-earlier-fault mode=inline api="+api, fmt.Sprintf("write %d has no fault of its own but failed: %v (an earlier injected mkdir/create failure is still in effect)", n, werr), plan)
+			return false
+		}
+		if !x.judge(plan, key, werr, src, prev, hadPrev, nil, "", nil) {
+			return false
+		}
+		if fault != "" {
+			c.AddDistinct(fmt.Sprintf("opfault/%s/%s/roots=%d/fired=%v/ok=%v", fault, moment, nroots, didFire, werr == nil))
+		}
+		return true
+	}
+	// the first write into fresh storage has to create the directories
+	if !write("os.mkdirall", "fresh-storage") {
+		return c
+	}
+	for i := 0; i < 3; i++ {
+		if !write("", "") {
+			return c
+		}
+	}
+	// fill up: filler keys so that a directory reaches its limit, then the write that replaces it
+	for round := 0; round < 2; round++ {
+		for i := 0; i < 100*nroots; i++ {
+			if err := env.DB.Set(ctxBg, fmt.Sprintf("fill%d-%d", round, i), []byte{1}); err != nil {
+				c.Violate("write-fails-after-an-earlier-fault mode=inline api=set", fmt.Sprintf("filler write failed: %v", err), map[string]any{"seed": seed, "case": idx})
+				return c
+			}
+		}
+		if !write("os.mkdirall", "directory-replacement") {
+			return c
+		}
+		for i := 0; i < 4; i++ {
+			if !write("", "") {
+				return c
+			}
+		}
+		if !write("os.create", "content-file") {
+			return c
+		}
+		for i := 0; i < 3; i++ {
+			if !write("", "") {
+				return c
+			}
+		}
+	}
+	c.Count("op_faults_fired", fired.Load())
+	if idx < 1 {
+		c.Sample = map[string]any{"role": "opfault", "faults_fired": fired.Load()}
+	}
+	return c
 }
